@@ -39,6 +39,8 @@ pub fn alphabet() -> Vec<(&'static str, Vec<u8>)> {
         ("Handshake", hs),
         ("Unknown20+2", vec![0, 0, 0, 3, 20, 1, 2]),
         ("Unknown9+0", vec![0, 0, 0, 1, 9]),
+        // an unknown id that equals the fifth byte of a handshake ('T')
+        ("Unknown84+2", vec![0, 0, 0, 3, 84, 1, 2]),
         ("Piece16K", refwire::encode(&Msg::Piece(1, 0, vec![0x5a; 16384]))),
         ("PieceMax", refwire::encode(&Msg::Piece(1, 0, vec![0xc3; 65527]))),
         ("BAD:ChokeLen2", vec![0, 0, 0, 2, 0, 9]),
@@ -802,7 +804,7 @@ pub fn run(ctx: &Ctx) -> Outcome {
         let (stream, runs) = runs_for(&seqs[*i], &alpha, max_cuts, false);
         json!({"stream": seqs[*i].iter().map(|m| alpha[*m].0).collect::<Vec<_>>(), "bytes": stream.len(), "executions": runs.len(), "example_cuts": runs[runs.len() / 2].cuts, "example_eof_at": runs[runs.len() / 2].eof_at})
     }).collect()));
-    o.assume("an error is due once the whole undecodable message (or the 5-byte header of an oversized one, or the 68 bytes of a handshake with a wrong protocol string) has been delivered; unknown ids in the alphabet are 9 and 20; id 0x54 (which this implementation uses to recognise a handshake by its fifth byte) is deliberately outside the alphabet");
+    o.assume("an error is due once the whole undecodable message (or the 5-byte header of an oversized one, or the 68 bytes of a handshake with a wrong protocol string) has been delivered; unknown ids in the alphabet are 9, 20 and 0x54 (the fifth byte of a handshake)");
     o.assume("E-SYS part: 2 directions x 3 valid prefixes x 9 undecodable/closed/reset endings x {one read, split after 5 bytes} in a real PeerHandler::run() task with the real manager; the task must have ended and the manager must have dropped the peer in the quiescent step in which the last offending byte / EOF / RST arrived");
     o.assume("unseamed replays: a covering set of streams (every single message, pairs) in three segmentation/ending shapes is also sent over a real loopback TCP connection into an unhooked Connection::with_socket; frames and ending must equal those of the in-memory pipe branch (a mismatch is a machinery error, not a verdict)");
     o.assume("loopback conformance replays (a subset of the streams over a real socket pair, real clock) must give the same frames and ending as the in-memory run, which E-SEG judged against the reference; a difference is reported as a violation of the real-socket path, a run that cannot be set up as a machinery error");
